@@ -47,3 +47,45 @@ Proof. exact lex_prefix_shift_needs_newline_refuted. Qed.
 (* the opcodes of a statement are the same whatever statements stand before or after it *)
 Theorem statement_ops_independent : forall p1 p2, translate (p1 ++ p2) = translate p1 ++ translate p2.
 Proof. exact translate_app. Qed.
+
+(* ---- every opcode is paired with the position of the AST node it came from (pos/PTranslate.v: translate.rs with its
+   positions; pos/PTemplate.v: the position tracking of the template parser for @{...} expressions).  The model's
+   (op, line, column) list is compared with the real translator's on every generated program by props/c17.py. ---- *)
+From Ucg Require Import pos.PAst pos.PTranslate pos.PTranslate_Lemmas pos.PTemplate pos.PTemplate_Lemmas.
+
+(* the positioned translator emits exactly the opcodes of the translator model the compile-correctness proofs are about *)
+Theorem positioned_translator_same_ops : forall p : pprog, map fst (ptranslate p) = translate (map erase_stmt p).
+Proof. exact ptranslate_erase. Qed.
+
+(* every opcode of a statement carries the position of a node of THAT statement ... *)
+Theorem ops_carry_positions_of_their_statement : forall s : pstmt,
+  Forall (fun x => In (snd x) (positions_of_stmt s)) (ptranslate_stmt s).
+Proof. exact ptranslate_positions_from_statement. Qed.
+
+(* ... hence a line inside the statement's span, whatever surrounds it *)
+Theorem ops_point_into_the_statement : forall s lo hi,
+  stmt_in_span s lo hi -> Forall (fun x => (lo <= line (snd x) <= hi)%N) (ptranslate_stmt s).
+Proof. exact ops_point_into_their_statement. Qed.
+
+(* the same with the span stated on what the FILE's parser produced: nodes inside @{...} lie on the lines of their string *)
+Theorem ops_point_into_the_statement_of_the_file : forall s lo hi,
+  tpl_placed_stmt s -> src_in_span s lo hi -> Forall (fun x => (lo <= line (snd x) <= hi)%N) (ptranslate_stmt s).
+Proof. exact ops_point_into_their_statement_src. Qed.
+
+(* k lines added before a program move every opcode position by exactly k lines and no column *)
+Theorem op_positions_move_with_the_text : forall k p,
+  ptranslate (map (shift_stmt k) p) = map (fun x => (fst x, shift_pos k (snd x))) (ptranslate p).
+Proof. exact ptranslate_shift. Qed.
+
+(* the opcodes of a function body carry positions of the statement that DEFINES the function: a fault in the body is
+   reported there, the call site as VIA *)
+Theorem function_body_ops_belong_to_the_definition : forall p np name fp ps body,
+  let s := PSLet p np name (PEFunc fp ps body) in
+  Forall (fun x => In (snd x) (positions_of_stmt s)) (ptranslate_expr body) /\
+  (forall lo hi, stmt_in_span s lo hi -> Forall (fun x => (lo <= line (snd x) <= hi)%N) (ptranslate_expr body)).
+Proof. intros p np name fp ps body. destruct (func_body_ops_carry_positions_of_the_defining_statement p np name fp ps body) as (_ & H1 & H2). split; assumption. Qed.
+
+(* the template scanner never leaves the lines of its string *)
+Theorem template_expressions_stay_on_the_lines_of_their_string : forall p tpl,
+  Forall (fun '(_, st, text) => (line p <= line st)%N /\ (line st + count_lf text <= line p + count_lf tpl)%N) (tpl_scan p tpl).
+Proof. exact tpl_scan_lines. Qed.
